@@ -20,7 +20,7 @@ import (
 	errorx "github.com/panjf2000/gnet/v2/pkg/errors"
 )
 
-var ctlOps = []string{"Validate", "CountConnections", "Dup", "DupListener-ok", "DupListener-unknown", "Register-empty", "Register-conn", "Execute-nil", "Execute-run", "Stop-cancelled", "Stop-live"}
+var ctlOps = []string{"Validate", "CountConnections", "Dup", "DupListener-ok", "DupListener-unknown", "Register-empty", "Register-conn", "Execute-nil", "Execute-run", "Execute-returns-inshutdown", "Stop-cancelled", "Stop-live"}
 
 type ctlState struct {
 	w          *world
@@ -33,6 +33,10 @@ type ctlState struct {
 	stopNilAt  int // ledger position when a Stop returned nil
 	peerFds    []int
 }
+
+type errRunnable struct{ f func() error }
+
+func (r errRunnable) Run(context.Context) error { return r.f() }
 
 type runnable struct{ f func() }
 
@@ -157,6 +161,17 @@ func (cs *ctlState) do(op string, phase string) {
 			return
 		}
 		err := el.Execute(context.Background(), runnable{func() { cs.execRuns++ }})
+		expectErr(err, nil)
+		if err == nil {
+			cs.execWant++
+		}
+	case "Execute-returns-inshutdown":
+		// a Runnable that hands on the documented "already in shutdown" error (what a handler gets from
+		// Stop/Register on some other, stopped engine): it is an ordinary error, not a shutdown request
+		if len(w.conns) == 0 {
+			return
+		}
+		err := w.conns[0].loop.Execute(context.Background(), errRunnable{func() error { cs.execRuns++; return errorx.ErrEngineInShutdown }})
 		expectErr(err, nil)
 		if err == nil {
 			cs.execWant++
@@ -321,6 +336,13 @@ func ctlWorld(name string, et bool, concurrent bool, lb LoadBalancing) *world {
 
 // zeroEngineCheck: an engine handle that was never started.
 func zeroEngineCheck() string {
+	// the state errors are distinct from the shutdown request: handing one of them on as the result
+	// of a callback or Runnable must not be taken for "shut the engine down"
+	for name, e := range map[string]error{"ErrEngineInShutdown": errorx.ErrEngineInShutdown, "ErrEmptyEngine": errorx.ErrEmptyEngine} {
+		if errors.Is(e, errorx.ErrEngineShutdown) {
+			return fmt.Sprintf("errors.Is(%s, ErrEngineShutdown) holds: the state error doubles as a shutdown request", name)
+		}
+	}
 	var e Engine
 	if err := e.Validate(); !errors.Is(err, errorx.ErrEmptyEngine) {
 		return fmt.Sprintf("zero Engine: Validate() = %v", err)
@@ -510,6 +532,108 @@ func clientEnrollFaultWorld(et bool) sched.Scenario {
 	return cw
 }
 
+// fatalAcceptWorld: an event loop dies of a hard error (accept4 fails with EMFILE, which the
+// acceptor does not retry): the whole engine shuts down. That is gnet's design; what the
+// properties ask is that this shutdown is as complete as a requested one: Run returns, every
+// opened connection gets its OnClose (C04/C06), OnShutdown runs once, every descriptor is closed
+// (C07) and the handle reports the in-shutdown state afterwards (C19).
+func fatalAcceptWorld(et, reuseport bool) *world {
+	w := newWorld("accept-fatal-error")
+	if et {
+		w.opts = append(w.opts, WithEdgeTriggeredIO(true))
+	}
+	if reuseport {
+		a := &unix.SockaddrInet4{Addr: [4]byte{127, 0, 0, 1}}
+		w.addr = fmt.Sprintf("tcp://127.0.0.1:%d", freeTCPPort(a, false))
+		w.opts = append(w.opts, WithReusePort(true), WithReuseAddr(true))
+	}
+	armed := false
+	w.deviate = func(site string, fd int, n int) []string {
+		if site == "accept4" && armed {
+			return []string{"EMFILE"}
+		}
+		return nil
+	}
+	w.script = func(w *world) {
+		if reuseport {
+			sched.SetSettle(6)
+		}
+		done := 0
+		bothOpen := func() bool { return len(w.conns) >= 2 && w.conns[0].opens > 0 && w.conns[1].opens > 0 }
+		for i := 0; i < 2; i++ {
+			w.peerThread(fmt.Sprintf("peer%d", i), &done, func(p *peer) {
+				if p.connect() {
+					sched.BlockUntil(bothOpen)
+				}
+			})
+		}
+		w.peerThread("late-peer", &done, func(p *peer) {
+			sched.BlockUntil(bothOpen)
+			sched.WaitIdle()
+			armed = true
+			p.connect()
+		})
+		sched.Go("ctl", func() {
+			w.waitBoot()
+			sched.BlockUntil(func() bool { return done >= 3 })
+			sched.WaitIdle()
+			if !w.runDone {
+				_ = w.eng.Stop(context.Background()) // no fault was injected in this execution: an ordinary stop
+			}
+		})
+		w.closerAfterRun()
+	}
+	w.checks = append(w.checks, checkEnd, func(w *world, out *sched.Outcome) (string, string) {
+		inj := ""
+		for _, e := range mcsys.L.Events {
+			if e.Inject == "EMFILE" {
+				inj = " (accept4 failed with EMFILE, injected)"
+			}
+		}
+		if !w.runDone {
+			return fmt.Sprintf("Run has not returned%s (end=%s blocked=%v)", inj, out.End, out.Blocked), "fatal:run-hangs"
+		}
+		if w.shutdowns != 1 {
+			return fmt.Sprintf("OnShutdown ran %d times%s", w.shutdowns, inj), "fatal:onshutdown-count"
+		}
+		for _, ci := range w.conns {
+			if ci.opens > 0 && ci.closes != 1 {
+				return fmt.Sprintf("connection #%d was opened but saw OnClose %d times before Run returned%s", ci.id, ci.closes, inj), "fatal:no-close"
+			}
+		}
+		if len(w.afterRun) > 0 {
+			return "callbacks after Run returned" + inj + ": " + strings.Join(w.afterRun, ", "), "fatal:after-run"
+		}
+		if err := w.eng.Validate(); !errors.Is(err, errorx.ErrEngineInShutdown) {
+			return fmt.Sprintf("after Run returned%s Validate() = %v, want the in-shutdown error", inj, err), "fatal:handle-state"
+		}
+		if n := w.eng.CountConnections(); n != -1 {
+			return fmt.Sprintf("after Run returned%s CountConnections() = %d, want -1", inj, n), "fatal:handle-state"
+		}
+		if err := w.eng.Stop(context.Background()); !errors.Is(err, errorx.ErrEngineInShutdown) {
+			return fmt.Sprintf("after Run returned%s Stop() = %v, want the in-shutdown error", inj, err), "fatal:handle-state"
+		}
+		if m, s := fdCheck(w, out); m != "" {
+			return m + inj, s
+		}
+		return "", ""
+	})
+	return w
+}
+
+func fatalAcceptConfigs(prop string) []sched.Config {
+	var out []sched.Config
+	for _, et := range []bool{false, true} {
+		for _, rp := range []bool{false, true} {
+			et, rp := et, rp
+			name := "accept-fatal-error/" + map[bool]string{false: "reactor", true: "tcp-reuseport"}[rp] + "/" + map[bool]string{false: "LT", true: "ET"}[et]
+			out = append(out, sched.Config{Property: prop, Name: name, Bounds: []sched.Bound{{PB: 0, DB: 0}, {PB: 0, DB: 1}, {PB: 1, DB: 1}}, Horizon: 40000, Deadline: seqmc.Deadline(), DelayBounded: true, TolerateNondeterminism: rp,
+				New: func() sched.Scenario { w := fatalAcceptWorld(et, rp); w.name = name; return w }})
+		}
+	}
+	return out
+}
+
 func ctlSchedConfigs() ([]sched.Config, func(string) *sched.Config) {
 	thorough := seqmc.Tier() == "thorough"
 	bounds := []sched.Bound{{PB: 0, DB: 0}, {PB: 0, DB: 1}, {PB: 1, DB: 0}, {PB: 0, DB: 2}, {PB: 1, DB: 1}}
@@ -546,6 +670,7 @@ func ctlSchedConfigs() ([]sched.Config, func(string) *sched.Config) {
 		out = append(out, sched.Config{Property: "C19", Name: name, Bounds: []sched.Bound{{PB: 0, DB: 0}, {PB: 0, DB: 1}, {PB: 1, DB: 1}}, Horizon: 40000, Deadline: seqmc.Deadline(), DelayBounded: true,
 			New: func() sched.Scenario { w := enrollFaultWorld(et2); w.name = name; return w }})
 	}
+	out = append(out, fatalAcceptConfigs("C19")...)
 	return out, func(name string) *sched.Config {
 		for i := range out {
 			if out[i].Name == name {
